@@ -1,7 +1,286 @@
 import KM.Driver.Core
-/-! Driver for C05 (stub until the property's model is built). -/
-namespace KM.Driver.C05
+import KM.Model.Session
+/-! Driver for C05: stateful line protocol.
 
-def handler (_mode : String) : Option Handler := none
+`model`/`digest`: op line ↦ `<status> <cookies> <events>` (digest adds ` | <canonical state>`).
+`model-asfound`: same with every repair switched off (used to describe a reverted tree).
+`judge`: `<op line> => <what the implementation answered>` ↦ `ok` / `viol <keys>`; keeps only what an
+observer of the wire and of the external verifiers knows (never the model's handler state) and applies
+the predicates the theorems are about: `levelOKb` (≡ `LevelOK`), subject stability, one-time use,
+expiry (`chalLife`, `vipLife`, TOTP window), CLI user equality. -/
+namespace KM.Driver.C05
+open KM.Util KM.Session
+
+def t0 : Nat := 1000
+
+/-! ### parsing -/
+def pNat (s : String) : Option Nat := s.toNat?
+def pInt (s : String) : Option Int := s.toInt?
+
+def pPair (s : String) : Option (Nat × Nat) :=
+  match s.splitOn ":" with
+  | [a, b] => do let x ← pNat a; let y ← pNat b; pure (x, y)
+  | _ => none
+
+/-- cookie reference: `-` none, `x` garbage (both: nothing that verifies), `<uid>:<level>` -/
+def pCookie (s : String) : Option (Option Cookie) :=
+  if s == "-" || s == "x" then some none
+  else match pPair s with
+    | some (u, l) => some (some ⟨u, l⟩)
+    | none => none
+
+def pOwner (s : String) : Option (Option User) :=
+  if s == "x" then some none else (pNat s).map some
+
+def pV (s : String) : Option (Option Nat) :=
+  if s == "-" then some none else (pNat s).map some
+
+def pKind (s : String) : Option TokKind :=
+  if s == "u" then some .u2f else if s == "w" then some .wa else none
+
+def pTok (s : String) : Option (Option CliTok) :=
+  if s == "x" then some none
+  else match pPair s with
+    | some (u, e) => some (some ⟨u, t0 + e⟩)
+    | none => none
+
+def relStep (r : Int) : Nat := (Int.ofNat t0 + r).toNat
+
+def parseOp : List String → Option Op
+  | ["login", u, pw] => do pure (.login (← pNat u) (← parseBool pw))
+  | ["vipotp", c, o] => do pure (.vipOtp (← pCookie c) (← pOwner o))
+  | ["pushstart", c, v] => do pure (.pushStart (← pCookie c) (← pV v))
+  | ["approve", k] => do pure (.approve (← pNat k))
+  | ["poll", c, v] => do pure (.poll (← pCookie c) (← pV v))
+  | ["totp", c, o, r] => do
+    let c ← pCookie c
+    let o ← pOwner o
+    let r ← pInt r
+    pure (.totp c (o.map fun u => (u, relStep r)))
+  | ["bootstrap", c, o] => do pure (.bootstrap (← pCookie c) (← pOwner o))
+  | ["u2fbegin", c] => do pure (.u2fBegin (← pCookie c))
+  | ["wabegin", c] => do pure (.waBegin (← pCookie c))
+  | ["u2ffinish", c, o, k, n] => do
+    let c ← pCookie c
+    let o ← pOwner o
+    let k ← pKind k
+    let n ← pNat n
+    pure (.u2fFinish c (o.map fun u => ⟨u, k, n⟩))
+  | ["wafinish", c, o, k, n] => do
+    let c ← pCookie c
+    let o ← pOwner o
+    let k ← pKind k
+    let n ← pNat n
+    pure (.waFinish c (o.map fun u => ⟨u, k, n⟩))
+  | ["showtoken", c, l] => do pure (.showToken (← pCookie c) (← pNat l))
+  | ["senddoc", c, t] => do pure (.sendDoc (← pCookie c) (← pTok t))
+  | ["logout", c] => do pure (.logout (← pCookie c))
+  | ["oktaotp", c, o] => do pure (.oktaOtp (← pCookie c) (← pOwner o))
+  | ["oktapushstart", c] => do pure (.oktaPushStart (← pCookie c))
+  | ["oktaapprove", u] => do pure (.oktaApprove (← pNat u))
+  | ["oktapoll", c] => do pure (.oktaPoll (← pCookie c))
+  | ["tick"] => some .tick
+  | ["sweep"] => some .sweep
+  | _ => none
+
+def cfgOfFlags (f b : Nat) : UserCfg := ⟨f.testBit 0, f.testBit 1, f.testBit 2, b⟩
+
+def parseReset : List String → Option State
+  | ["reset", f0, b0, f1, b1, mode] => do
+    let f0 ← pNat f0
+    let b0 ← pNat b0
+    let f1 ← pNat f1
+    let b1 ← pNat b1
+    let okta ← if mode == "okta" then some true else if mode == "htp" then some false else none
+    pure (init t0 okta fun u => if u = 0 then cfgOfFlags f0 b0 else if u = 1 then cfgOfFlags f1 b1 else ⟨false, false, false, 0⟩)
+  | _ => none
+
+/-! ### printing -/
+def codeStr (n : Nat) : String := if n = 0 then "PANIC" else if n = 1 then "-" else toString n
+
+def joinOr (l : List String) : String := if l.isEmpty then "-" else ",".intercalate l
+
+def cookieStr (c : Cookie) : String := s!"{c.sub}:{c.level}"
+
+def factorStr : Factor → String
+  | .password => "pw" | .hwToken => "hw" | .vip => "vip" | .totp => "totp"
+  | .okta => "okta" | .bootstrap => "boot" | .cli => "cli"
+
+def evStr (e : User × Factor) : String := s!"{factorStr e.2}:{e.1}"
+
+def outStr (o : Out) : String :=
+  s!"{codeStr o.code} {joinOr (o.cookies.map cookieStr)} {joinOr (o.events.map evStr)}"
+
+def sortDedup (l : List String) : List String :=
+  (l.toArray.qsort (· < ·)).toList.eraseDups
+
+def optStr {α : Type} (f : α → String) : Option α → String
+  | some a => f a
+  | none => "_"
+
+/-- canonical description of everything the handlers can observe, over users 0,1, push cookie values 0..3
+and the transactions created so far; clock relative to the start -/
+def digest (s : State) : String :=
+  let rel (n : Nat) : String := toString (Int.ofNat n - Int.ofNat t0)
+  let ck := sortDedup (s.cookies.map cookieStr)
+  let tk := sortDedup (s.toks.map fun t => s!"{t.user}:{rel t.expiresAt}")
+  let push := (List.range 4).map fun V => optStr (fun (t : PushTx) => s!"{t.user}/{t.txid}/{rel t.expiresAt}") (s.push V)
+  let svc := (List.range s.nextTx).map fun k => optStr (fun (p : User × Bool) => s!"{p.1}/{boolStr p.2}") (s.svcTx k)
+  let usr := (List.range 2).map fun u =>
+    let p := s.prof u
+    let ch := optStr (fun (c : Chal) => s!"{c.id}/{boolStr c.hasWA}/{rel c.issuedAt}") (s.chal u)
+    let lt := if p.lastTotp = 0 then "never" else rel p.lastTotp
+    s!"[{ch} lt={lt} b={optStr rel p.boot} o={boolStr (s.oktaSess u)}{boolStr (s.oktaPushed u)}{boolStr (s.oktaApproved u)}]"
+  s!"t={rel s.now} ck={ck} tk={tk} push={push} svc={svc} nc={s.nextChal} {usr}"
+
+/-! ### model mode -/
+structure MState where
+  started : Bool
+  s : State
+
+def mInit : MState := ⟨false, init t0 false fun _ => ⟨false, false, false, 0⟩⟩
+
+def modelStep (v : Variant) (withDigest : Bool) (m : MState) (fs : List String) : MState × String :=
+  match fs with
+  | "reset" :: _ =>
+    match parseReset fs with
+    | some s => (⟨true, s⟩, if withDigest then s!"- - - | {digest s}" else "- - -")
+    | none => (m, "bad-op")
+  | _ =>
+    if !m.started then (m, "bad-op") else
+    match parseOp fs with
+    | none => (m, "bad-op")
+    | some op =>
+      let r := step v m.s op
+      (⟨true, r.1⟩, if withDigest then s!"{outStr r.2} | {digest r.1}" else outStr r.2)
+
+/-! ### judge mode -/
+structure JState where
+  started : Bool := false
+  now : Nat := 0                          -- ticks since reset
+  bootLife : List Nat := [0, 0]
+  log : List (User × Factor) := []
+  usedTotp : List (User × Int) := []
+  usedBoot : List User := []
+  usedChal : List Nat := []
+  chalAt : List Nat := []                 -- challenge k was handed out at tick chalAt[k]
+  pushAt : List (Nat × Nat) := []         -- (push cookie value, tick of the latest successful push start)
+
+def pFactor (s : String) : Option Factor :=
+  if s == "pw" then some .password else if s == "hw" then some .hwToken else if s == "vip" then some .vip
+  else if s == "totp" then some .totp else if s == "okta" then some .okta else if s == "boot" then some .bootstrap
+  else if s == "cli" then some .cli else none
+
+def pList {α : Type} (f : String → Option α) (s : String) : Option (List α) :=
+  if s == "-" then some [] else (s.splitOn ",").mapM f
+
+def pEvent (s : String) : Option (User × Factor) :=
+  match s.splitOn ":" with
+  | [f, u] => do pure ((← pNat u), (← pFactor f))
+  | _ => none
+
+def pCk (s : String) : Option Cookie := (pPair s).map fun p => ⟨p.1, p.2⟩
+
+def splitArrow (fs : List String) : List String × List String :=
+  (fs.takeWhile (· != "=>"), (fs.dropWhile (· != "=>")).drop 1)
+
+/-- which request cookie an op line carries (field 1 of every request op except login) -/
+def opCookie (fs : List String) : Option Cookie :=
+  match fs with
+  | "login" :: _ => none
+  | _ :: c :: _ => (pCookie c).join
+  | _ => none
+
+def judgeStep (j : JState) (fs : List String) : JState × String :=
+  let (opf, outf) := splitArrow fs
+  match opf with
+  | ["reset", _, b0, _, b1, _] =>
+    match pNat b0, pNat b1 with
+    | some b0, some b1 => ({ started := true, bootLife := [b0, b1] }, "ok")
+    | _, _ => (j, "bad-op")
+  | _ =>
+  if !j.started then (j, "bad-op") else
+  match outf with
+  | [code, cks, evs] =>
+    match pList pCk cks, pList pEvent evs with
+    | some cks, some evs =>
+      let log := evs ++ j.log
+      let acc := !cks.isEmpty
+      let sub := (opCookie opf).map (·.sub)
+      -- P1: every factor bit of every cookie handed out was verified for its subject
+      let v1 := cks.filterMap fun c => if levelOKb log c.sub c.level then none else some s!"inv:{opf.headD "?"}"
+      -- P1': the subject never changes (login: it is the user who logged in)
+      let v2 := cks.filterMap fun c =>
+        match opf with
+        | ["login", u, _] => if pNat u == some c.sub then none else some "subject:login"
+        | _ => if sub == some c.sub then none else some s!"subject:{opf.headD "?"}"
+      let j1 := { j with log := log }
+      let (j2, v3) : JState × List String :=
+        match opf with
+        | ["tick"] => ({ j1 with now := j1.now + 1 }, [])
+        | ["totp", _, o, r] =>
+          if acc then
+            match pNat o, pInt r with
+            | some o, some r =>
+              ({ j1 with usedTotp := (o, r) :: j1.usedTotp },
+                (if j1.usedTotp.contains (o, r) then ["onetime:totp"] else []) ++
+                (if r + 1 < Int.ofNat j1.now then ["expired:totp"] else []))
+            | _, _ => (j1, ["accepted-garbage:totp"])
+          else (j1, [])
+        | ["bootstrap", _, _] =>
+          if acc then
+            match sub with
+            | some u =>
+              ({ j1 with usedBoot := u :: j1.usedBoot },
+                (if j1.usedBoot.contains u then ["onetime:bootstrap"] else []) ++
+                (if j1.bootLife.getD u 0 ≤ j1.now then ["expired:bootstrap"] else []))
+            | none => (j1, [])
+          else (j1, [])
+        | [b, _] =>
+          if (b == "u2fbegin" || b == "wabegin") && code == "200" then ({ j1 with chalAt := j1.chalAt ++ [j1.now] }, [])
+          else (j1, [])
+        | [fin, _, _, _, n] =>
+          if (fin == "u2ffinish" || fin == "wafinish") && acc then
+            match pNat n with
+            | some n =>
+              ({ j1 with usedChal := n :: j1.usedChal },
+                (if j1.usedChal.contains n then [s!"onetime:challenge:{fin}"] else []) ++
+                (match j1.chalAt[n]? with
+                 | none => [s!"unknown-challenge:{fin}"]
+                 | some t => if t + chalLife ≤ j1.now then [s!"expired:challenge:{fin}"] else []))
+            | none => (j1, [s!"accepted-garbage:{fin}"])
+          else (j1, [])
+        | ["pushstart", _, v] =>
+          match pNat v with
+          | some v => if code == "200" then ({ j1 with pushAt := (v, j1.now) :: j1.pushAt }, []) else (j1, [])
+          | none => (j1, [])
+        | ["poll", _, v] =>
+          if acc then
+            match (pNat v).bind fun v => j1.pushAt.lookup v with
+            | none => (j1, ["unknown-push"])
+            | some t => (j1, if t + vipLife ≤ j1.now then ["expired:push"] else [])
+          else (j1, [])
+        | ["senddoc", _, t] =>
+          if acc then
+            match pPair t with
+            | some (tu, e) =>
+              (j1, (if cks == [⟨tu, KM.Gen.authTypeWebauthForCLI⟩] && sub == some tu then [] else ["cli-user"]) ++
+                   (if e ≤ j1.now then ["expired:cli"] else []))
+            | none => (j1, ["accepted-garbage:senddoc"])
+          else (j1, [])
+        | _ => (j1, [])
+      let v := v1 ++ v2 ++ v3
+      (j2, if v.isEmpty then "ok" else "viol " ++ " ".intercalate v.eraseDups)
+    | _, _ => (j, "bad-op")
+  | _ => (j, "bad-op")
+
+def asFound : Variant := ⟨false, false, false, false, false⟩
+
+def handler (mode : String) : Option Handler :=
+  if mode == "model" then some { σ := MState, init := mInit, step := modelStep fixed false }
+  else if mode == "digest" then some { σ := MState, init := mInit, step := modelStep fixed true }
+  else if mode == "model-asfound" then some { σ := MState, init := mInit, step := modelStep asFound false }
+  else if mode == "judge" then some { σ := JState, init := {}, step := judgeStep }
+  else none
 
 end KM.Driver.C05
